@@ -281,6 +281,15 @@ def oracle(fmt, mn, mx, st, val, impl):
         else:
             top = max(abs(sp0["off"] + k * sp0["step"]) for k in (sp0["klo"], sp0["khi"])) if sp0["kind"] == "grid" else max(abs(x) for x in sp0["candidates"])
             beyond, maybe = False, top + sp0["tol"] >= stepgrid.FLOAT_LIMIT
+            if maybe and impl == "err format" and sp0["kind"] == "grid":
+                # the tolerance band reaches the largest double, so the band alone cannot say whether the rejection is justified.
+                # Independent rule: the four operations, each correctly rounded to six digits in exact integer arithmetic
+                # (stepgrid.chain6) - the rejection is justified only if THAT number cannot be handed over as a double.
+                c6 = stepgrid.chain6(sp0["off"], sp0["step"], stepgrid.clamp(v, fr(mn), fr(mx)))
+                if abs(c6) < stepgrid.FLOAT_LIMIT:
+                    return ("float:rejected-below-largest-double",
+                            f"{fmt} min={mn!r} max={mx!r} step={st!r}: convertible value {short(val)} failed with {impl} although the "
+                            f"six-digit grid point {float_of(c6)!r} is a finite double (largest double 1.7976931348623157e308)")
         if beyond or (maybe and impl == "err format"):
             return None if impl == "err format" else ("float:beyond-largest-double", f"value={short(val)}: the result exceeds the largest double "
                                                                                       f"and must fail with FormatError, got {impl}")
@@ -359,7 +368,72 @@ def path_of(fmt, mn, mx, st, val):
     return "dec6"
 
 
+def branch_dims(fmt, mn, mx, st, val):
+    """(integrality, steps, step_sign): the two dimensions the branch selection and the step count hang on (round 9: seeds Q, R).
+    integrality = format class + which of (clamped value, offset, step) are integral; steps = magnitude of |(clamp(v)-min)/step|."""
+    if fmt == "bool" or not st:
+        return "n/a", "n/a", "n/a"
+    d = stepgrid.dec_reading(val)
+    if d is None:
+        return "n/a", "n/a", "n/a"
+    c = stepgrid.clamp_dec(d, mn, mx)
+    if (c and abs(c.adjusted()) > 400) or stepgrid.extreme_metadata(mn, mx, st):
+        return "n/a", "n/a", "n/a"
+    off, s = (Decimal(mn) if mn is not None else Decimal(0)), Decimal(st)
+    i = lambda x: "i" if x == x.to_integral_value() else "f"          # noqa: E731
+    integ = ("int:" if fmt != "float" else "float:") + "v" + i(c) + "-min" + i(off) + "-step" + i(s)
+    q = abs((Fraction(c) - Fraction(off)) / Fraction(s))
+    steps = ("0" if q == 0 else "<1" if q < 1 else "<1e3" if q < 1000 else "<999999.5" if q < Fraction(1999999, 2) else
+             "999999.5..1e6" if q <= 10 ** 6 else "<1e7" if q < 10 ** 7 else "<1e12" if q < 10 ** 12 else ">=1e12")
+    return integ, steps, ("negative" if s < 0 else "positive")
+
+
 # ---------------------------------------------------------------- generators
+BR_MINS = [None, None, 0, 0, 1, 10, 1.0, 0.5, 2.5, "0.5", "10", 255]
+BR_MINS_SIGNED = [-7, -0.5, -2.5, -2 ** 31, -100]
+BR_STEPS = [1, 1, 2, 3, 7, 1.0, "2", "1e1", 1000, 0.5, 0.5, 2.5, "2.5", 0.1, 0.01, 0.25, "1e-6", "0.001", -1, -2, -0.5, "-2.5", 1.5]
+BR_K = [0, 1, 3, 17, 999, 99999, 999999, 10 ** 6, 10 ** 6 + 1, 5 * 10 ** 6, 10 ** 7 + 3, 10 ** 9 + 7, 10 ** 12]
+BR_DELTA = [Fraction(0), Fraction(0), Fraction(1, 2), Fraction(499, 1000), Fraction(501, 1000), Fraction(-1, 2), Fraction(1, 3), Fraction(1)]
+
+
+def gen_branch(tier, r):
+    """Directed stream for the two dimensions seeds Q and R changed: WHICH of (value, minimum, step) are integral (8 patterns per
+    format class: the code picks the exact-integer branch on that) x HOW MANY steps lie between the minimum and the value (1, 999999,
+    exactly 10^6, 10^6+1, 10^7, 10^12: six digits hold 999999 steps) x the sign of the step x the spelling of the value."""
+    n = 9000 if tier == "quick" else 150000
+    cases = [("uint8", 0, 100, 0.5, 5), ("uint16", None, None, 0.01, 250.0), ("int", -50, 50, 2.5, 4), ("uint8", 0, 100, 2.5, 6),
+             ("uint8", 0.5, 100.5, 2, 7), ("float", 0, 100000, 0.01, 50000), ("float", 0, 1, "1e-6", 1), ("float", 0, 1, "1e-6", 0.999999),
+             ("float", -1000000, 1000000, 0.5, 0), ("uint32", 0, 4294967295, 1, 1234567.5), ("uint32", 0, 4294967295, 1, "3000000.25"),
+             ("uint8", 0, 100, -2, 7), ("int", -7, None, -3, 100), ("float", 10, 38, -0.5, 27.26), ("uint8", 0.5, None, 1, 3)]
+    while len(cases) < n:
+        fmt = r.choice(NUM_FORMATS + ["float"])
+        mn = r.choice(BR_MINS + (BR_MINS_SIGNED if fmt in ("int", "float") else []))
+        st = r.choice(BR_STEPS)
+        k = r.choice(BR_K)
+        off, s = Fraction(Decimal(mn)) if mn is not None else Fraction(0), Fraction(Decimal(st))
+        v = off + (k + r.choice(BR_DELTA)) * abs(s)
+        if fmt == "int" and r.random() < 0.2 or mn is None and fmt in ("int", "float") and r.random() < 0.3:
+            v = off - (v - off)                                       # below the minimum (clamps) / negative without a minimum
+        m = r.random()
+        if m < 0.35:
+            mx = None
+        elif m < 0.75:
+            mx = off + (k + r.choice([0, 1, 5, 10 ** 6])) * abs(s)    # on the grid
+            mx = int(mx) if mx.denominator == 1 else (float(mx) if r.random() < 0.5 else str(Decimal(mx.numerator) / Decimal(mx.denominator)))
+        else:
+            mx = r.choice([2 ** 64 - 1, 10 ** 6, 10 ** 13, 4294967295, 1e15])
+        if v.denominator == 1:
+            iv = int(v)
+            val = r.choice([iv, iv, str(iv), "%d.0" % iv, "%de0" % iv, Decimal(iv), "%d.000" % iv] + ([float(iv)] if abs(iv) < 2 ** 53 else []))
+        elif v.denominator % 3 == 0:
+            val = float(v)
+        else:
+            dv = Decimal(v.numerator) / Decimal(v.denominator)       # terminating: exact at the harness's own precision 28?
+            val = r.choice([str(dv), float(v), dv]) if Fraction(dv) == v else float(v)
+        cases.append((fmt, mn, mx, st, val))
+    return [c for c in cases if driver_can_align(c)]
+
+
 def gen_grid(tier):
     cases = []
     for mx in range(0, 21):
@@ -1106,7 +1180,8 @@ def run(ctx):
     else:
         amb_cases, amb_pre = gen_ambient(tier)
         streams = [("grid", gen_grid(tier)), ("num", gen_num(tier, rng(seed, "c14num"))), ("bad", gen_bad(tier, rng(seed, "c14bad"))),
-                   ("extreme", gen_extreme(tier)), ("ambient", amb_cases)]
+                   ("branch", gen_branch(tier, rng(seed, "c14branch"))),
+                   ("extreme", gen_extreme(tier)), ("ambient", amb_cases)]     # `ambient` stays last: it leaves a caller-configured context behind
         pre = None
         # the thread has already seen (and rejected) a value before the first case: whatever that leaves behind stays
         impl.run("float", None, None, None, "abc")
@@ -1190,6 +1265,7 @@ def run(ctx):
             elif not explained:
                 add(f"{sname}:model-mismatch", f"implementation {got[:80]} != model {m[:80]} on {short(case, 300)}", False, stream=sname, case=crepr,
                     case_json=cj, ambient=ambient_before, impl=got, model=m, broken="correspondence Model/Convert.v <-> check_convert_value")
+        bd = branch_dims(fmt, mn, mx, st, val)
         nontrivial = fmt == "bool" or mn is not None or mx is not None or bool(st) or got.startswith("err")
         cov.case(short(case, 10 ** 9) + (repr(ambient_before) if sname == "ambient" else ""), nontrivial,
                  sample=dict(stream=sname, **crepr, impl=got) if idx % 4999 == 7 else None,
@@ -1197,6 +1273,7 @@ def run(ctx):
                  value_type=type(val).__name__,
                  bounds=("min" if mn is not None else "-") + ("max" if mx is not None else "-") + ("step" if st else "-"),
                  magnitude=magnitude_of(fmt, val),
+                 integrality=bd[0], steps=bd[1], step_sign=bd[2],
                  ambient_origin=("caller-configured" if caller_touched else "left by the library's own calls" if ambient_before != DEFAULT_AMBIENT
                                  else "default"),
                  ambient_flags="+".join(ambient_before["flags"]) or "-",
